@@ -2,12 +2,12 @@ SPECIFICATION Spec
 CONSTANTS
   Crcs <- Crcs2
   CrcSeq <- CrcSeq2
-  LogTables <- LogThor
-  ParamTables <- ParThor
+  LogTables <- LogEmpty
+  ParamTables <- ParEmpty
   FLen = 2
   Alias <- AliasBeef
   Bug = "none"
-  MaxConnect = 3
+  MaxConnect = 2
   MaxCrash = 1
   MaxEnv = 1
 INVARIANT SetupsOK
